@@ -74,7 +74,7 @@ def check(ctx: Ctx) -> None:
     ctx.assumptions += ["RelativeSequence.split is pure and returns fresh pieces (C08, C16)", "signature changes lie on bar boundaries (hypothesis of the property)"]
     # bar splitting is built on RelativeSequence.split: its boundary handling decides whether the bars reproduce the music
     from .c08 import split_rules
-    split_rules(ctx, {"KEY", "CUT", "RESTRIKE"})
+    split_rules(ctx, {"KEY", "CUT", "RESTRIKE", "PLACE"})
     # ... and every bar is made by Bar.__init__: capacity test, padding and the single leading signature (rules of C10)
     from .c10 import bar_rules
     bar_rules(ctx)
@@ -123,6 +123,9 @@ def check(ctx: Ctx) -> None:
                           construct=f"content-changing method `{name}` called on an input sequence",
                           message=f"`{short(c, 60)}` mutates one of the caller's sequences", file=fi.file, node=c)
     ctx.floor("method calls on input sequences", n_calls, 2)
+    # Bar(...) normalises, pads and rewrites the sequence it is given: no bar may hold (an alias of) an input sequence
+    from ..engines import ownership
+    ownership.check_routes(ctx, "PURE", routes=[FN])
 
     # --- DEFAULT
     nz0 = Normaliser()
